@@ -19,10 +19,10 @@ from vlib import cbuild
 ID = "C14"
 LEVEL = "exploration"
 SHRINK_BUDGET = 150
-KINDS = ["empty", "struct", "array", "unionref", "hybrid", "deponly"]
+KINDS = ["empty", "struct", "array", "unionref", "hybrid", "deponly", "ehybrid"]
 RULE = (
     "case = dependency graph of n<=7 classes, each of kind {field-less Struct, Struct, named Array, UnionRef, "
-    "HybridClass, Struct with only declared dependencies}, structural edges (field of the class type, field Ref[class], "
+    "HybridClass, field-less HybridClass, Struct with only declared dependencies}, structural edges (field of the class type, field Ref[class], "
     "field class[2], array item, array item Ref[class], union member) to earlier classes, declared (_depends_on) edges "
     "in any direction incl. self loops (the only way to close a cycle), and a non-empty root list in any order with "
     "duplicates. The harness records the dependency relation while it builds the real classes. Oracle, acyclic closure: "
@@ -97,12 +97,12 @@ def build_graph(case):
                 kind = "struct"
         if kind == "array":
             edges = edges[:1]
-        if kind in ("empty", "deponly"):
+        if kind in ("empty", "deponly", "ehybrid"):
             edges = []
         nd["kind_eff"] = kind
-        prefix = {"empty": "E", "struct": "S", "array": "A", "unionref": "U", "hybrid": "H", "deponly": "D"}[kind]
+        prefix = {"empty": "E", "struct": "S", "array": "A", "unionref": "U", "hybrid": "H", "deponly": "D", "ehybrid": "G"}[kind]
         nm = f"{prefix}{i}"
-        api = nm + "Data" if kind == "hybrid" else nm
+        api = nm + "Data" if kind in ("hybrid", "ehybrid") else nm
         names[i] = api
         G[api] = set()
         kinds[api] = kind
@@ -127,8 +127,8 @@ def build_graph(case):
             for j, _ in edges:
                 G[api].add(names[j])
             cls[i] = type(nm, (xo.UnionRef,), {"_reftypes": [cls[j] for j, _ in edges]})
-        elif kind == "hybrid":
-            fields = {"x": xo.Int8}
+        elif kind in ("hybrid", "ehybrid"):
+            fields = {"x": xo.Int8} if kind == "hybrid" else {}  # ehybrid: a HybridClass without fields
             for fi, (j, mode) in enumerate(edges):
                 if dress[j] is not None and mode == "direct":
                     fields[f"f{fi}"] = dress[j]  # a HybridClass as field type (converted by the metaclass)
@@ -262,6 +262,10 @@ def run_case(case):
     if is_raised(res):
         return fail("sort_raised", f"acyclic closure {clo}: {res}", res.key, labels)
     got = [c.__name__ for c in res]
+    # a second sort of the same roots (a second build) gives the same answer: sorting must not alter the classes
+    res2 = sut(sort_classes, list(root_cls))
+    if is_raised(res2) or [c.__name__ for c in res2] != got:
+        return fail("second_sort_differs", f"first {got}, second {res2 if is_raised(res2) else [c.__name__ for c in res2]}", "", labels)
     # exactly once, nothing else
     for nm in clo:
         c = got.count(nm)
@@ -328,7 +332,7 @@ def cases(draw, tier):
     n = draw(st.integers(1, 7 if tier == "thorough" else 6))
     nodes = []
     for i in range(n):
-        kind = draw(st.sampled_from(["empty", "struct", "struct", "array", "unionref", "hybrid", "hybrid", "deponly"]))
+        kind = draw(st.sampled_from(["empty", "struct", "struct", "array", "unionref", "hybrid", "hybrid", "deponly", "ehybrid"]))
         edges = []
         if i > 0:
             k = min(i, draw(st.sampled_from([0, 1, 1, 2, 2, 3])))
@@ -361,7 +365,7 @@ def budget(tier):
 
 
 def essential_labels(tier):
-    return ["cyclic", "diamond", "chain_depth_3plus", "fieldless_dependency", "kind:hybrid", "kind:unionref", "kind:ref", "kind:anon_array", "real_build", "duplicate_roots"]
+    return ["cyclic", "diamond", "chain_depth_3plus", "fieldless_dependency", "kind:hybrid", "kind:ehybrid", "kind:unionref", "kind:ref", "kind:anon_array", "real_build", "duplicate_roots"]
 
 
 # --------------------------------------------------------------------------
